@@ -73,6 +73,25 @@ class HistPlugin(BasePlugin):
 
 
 def well_formed(op):
+    if op['op'] == 'fam':
+        if op.get('kind') not in ('update', 'replace', 'delete'):
+            return False
+        if op['kind'] != 'delete' and not isinstance(op.get('arg'), dict):
+            return False
+        if not isinstance(op.get('after'), bool):
+            return False
+        if op.get('proj') is not None and not isinstance(op['proj'], (dict, list)):
+            return False
+    if op['op'] == 'bulk':
+        if not isinstance(op.get('reqs'), list) or not all(
+                isinstance(r, dict) and isinstance(r.get('kind'), str)
+                and all(isinstance(r.get(k, {}), dict) for k in ('filter', 'update', 'repl', 'doc'))
+                and {'insert_one': {'doc'}, 'update_one': {'filter', 'update'}, 'update_many': {'filter', 'update'},
+                     'replace_one': {'filter', 'repl'}, 'delete_one': {'filter'}, 'delete_many': {'filter'}
+                     }.get(r['kind'], {'?'}) <= set(r) for r in op['reqs']):
+            return False
+    if op['op'] == 'find' and op.get('proj') is not None and not isinstance(op['proj'], (dict, list)):
+        return False
     for k in ('filter', 'update', 'repl', 'doc'):
         if k in op and not isinstance(op[k], dict):
             return False
